@@ -37,7 +37,7 @@ var rng *rand.Rand
 var vals = []interface{}{float64(1), float64(2), "a", true, nil, map[string]interface{}{"k": float64(1)},
 	[]interface{}{float64(1), float64(2)}, 1.5, "n1", "n2",
 	[]interface{}{map[string]interface{}{"k": float64(1)}}, map[string]interface{}{"k": []interface{}{float64(1)}}}
-var bkeys = []string{"k", "j", "t", "?x", "?t", "p!", "q!", "xs"}
+var bkeys = []string{"k", "j", "t", "?x", "?t", "p!", "q!", "xs", "!"}
 var nodeNames = []string{"n0", "n1", "n2", "error", "ghost"}
 
 func pick(xs []interface{}) interface{} { return enc.DeepCopy(xs[rng.Intn(len(xs))]) }
@@ -275,6 +275,9 @@ func genBs(b bias) match.Bindings {
 	}
 	if p(b.perm) {
 		bs["p!"] = pick(vals)
+	}
+	if p(b.perm * 0.25) {
+		bs["!"] = pick(vals) // (the shortest name that ends in '!')
 	}
 	if p(b.hostile) {
 		// a variable bound to a string that looks like a variable (taken from a message, say), possibly its own name
@@ -554,8 +557,14 @@ func genProps() core.StepProps {
 	return core.StepProps{"mid": "m1", "n": map[string]interface{}{"k": float64(1), "deep": map[string]interface{}{"z": []interface{}{float64(1)}}},
 		"l": []interface{}{map[string]interface{}{"c": float64(1)}, []interface{}{float64(1), map[string]interface{}{"d": "x"}}, "s"},
 		// containers of other Go types, which hosts may well put into the properties
-		"labels": map[string]string{"env": "prod"}, "peers": []string{"p1", "p2"}, "rows": []map[string]interface{}{{"r": "one"}}}
+		"labels": map[string]string{"env": "prod"}, "peers": []string{"p1", "p2"}, "rows": []map[string]interface{}{{"r": "one"}},
+		// ... and of a host's own named types, with elements of any type
+		"attrs": hostAttrs{"k": float64(1), "deep": map[string]interface{}{"z": []interface{}{float64(1)}}},
+		"queue": hostQueue{map[string]interface{}{"c": float64(1)}, []interface{}{float64(2)}}}
 }
+
+type hostAttrs map[string]interface{}
+type hostQueue []interface{}
 
 func genStep(id int, kind string, b bias) O {
 	a := genSpec(b, 1+rng.Intn(2), true)
@@ -956,7 +965,7 @@ var biases = map[string]bias{
 	"frame":  {fail: 0.5, perm: 0.15, emit: 0, bad: 0.05, loop: 0.0, native: 0.3, nilbs: 0, guard: 0.4, typed: 0.2},
 	"total":  {fail: 0.6, perm: 0.4, emit: 0, bad: 0.1, loop: 0.03, native: 0.4, nilbs: 0.15, guard: 0.5, hostile: 0.06},
 	"exotic": {fail: 0.3, perm: 0.2, emit: 0, bad: 0.0, loop: 0.0, native: 0.2, nilbs: 0.05, guard: 0.5, exotic: 0.5},
-	"emit":   {fail: 0.6, perm: 0.05, emit: 0.2, bad: 0.02, loop: 0.02, native: 0.0, nilbs: 0, guard: 0.4},
+	"emit":   {fail: 0.6, perm: 0.05, emit: 0.2, bad: 0.02, loop: 0.02, native: 0.0, nilbs: 0, guard: 0.4, exotic: 0.12},
 	"perm":   {fail: 0.4, perm: 0.8, emit: 0, bad: 0.0, loop: 0.0, native: 0.5, nilbs: 0, guard: 0.5, inplace: 0.4},
 	"walk":   {fail: 0.2, perm: 0.1, emit: 0.1, bad: 0.02, loop: 0.0, native: 0.3, nilbs: 0.02, guard: 0.3},
 }
